@@ -3,10 +3,19 @@
 
   Theorems about `Calc.calculate exactOps` (Model/Calc.lean) with
   `rule = currency`.  Helper lemmas: Proofs/CalcBasics.lean,
-  Proofs/CalcCurrency.lean.
+  Proofs/CalcCurrency.lean, Proofs/CalcTax.lean.
+
+  Proved: line totals, document sums and running total, tax groups /
+  categories / tax sum, and the final assembly (total, total_with_tax,
+  payable, due) are plain integer arithmetic at the currency's exponent.
+  Glue not proved as one statement about `calculate`: that the tax summary
+  handed to the final assembly is the one `category_readds`/`tax_sum_readds`
+  speak about after `roundTax` (an identity at that exponent) — covered by
+  the re-add oracle on the real output and by model = code.
 -/
 import GoblVerif.Spec.C03
 import GoblVerif.Proofs.CalcCurrency
+import GoblVerif.Proofs.CalcTax
 
 namespace GoblVerif.Props.C03
 open GoblVerif GoblVerif.Calc
@@ -23,6 +32,149 @@ theorem line_total_readds (cur : String) (c : Nat) (rates : List XRate) (l l' : 
   obtain ⟨h1, h2, h3, h4⟩ := calcLine_currency cur c rates l l' hg h s t hs ht hi
   subst h4
   exact ⟨h1, rfl, h2, h3, rfl⟩
+
+/-- the value of an optional total, 0 when absent -/
+def valueOr0 (a : Option Amount) : Int := match a with | some x => x.value | none => 0
+
+/-- **doc_sum_readds / total_readds (before tax)**: under the currency rule the
+document sum is exactly the sum of the line totals, the discount and charge
+totals are exactly the sums of their rows, and the running total is
+sum − discounts + charges — all plain integer arithmetic at the currency's
+exponent.  Holds for every document (no guard on fixed amounts is needed here:
+document rows are rounded to the currency before they are summed). -/
+theorem doc_sums_readd (d : Doc) (p : Pre) (hr : d.rule = .currency)
+    (hclean : ∀ l ∈ d.lines, l.total = none) (h : pre exactOps d = .ok p) :
+    p.sum = ⟨((p.lines.filterMap (·.total)).map (·.value)).sum, d.c⟩ ∧
+    (∀ x ∈ p.discounts, x.amount.exp = d.c) ∧ (∀ x ∈ p.charges, x.amount.exp = d.c) ∧
+    (∀ s, p.dsum = some s → s = ⟨(p.discounts.map (·.amount.value)).sum, d.c⟩) ∧
+    (∀ s, p.csum = some s → s = ⟨(p.charges.map (·.amount.value)).sum, d.c⟩) ∧
+    p.total2 = ⟨p.sum.value - valueOr0 p.dsum + valueOr0 p.csum, d.c⟩ := by
+  unfold pre at h
+  rw [hr] at h
+  cases hl : calcLines exactOps d.cur d.c d.rates .currency d.lines with
+  | error e => simp [hl] at h
+  | ok lines =>
+    simp only [hl] at h
+    injection h with h
+    subst h
+    simp only
+    have hexp := calcLines_currency_total_exp d.cur d.c d.rates d.lines lines hl hclean
+    have hsum : lineSum exactOps d.c lines = ⟨((lines.filterMap (·.total)).map (·.value)).sum, d.c⟩ := by
+      unfold lineSum
+      rw [foldl_accum_same d.c _ ⟨0, d.c⟩ rfl hexp]
+      simp
+    have hD : ∀ x ∈ d.discounts.map (docAdj exactOps .currency d.c (lineSum exactOps d.c lines)), x.amount.exp = d.c := by
+      intro x hx
+      simp only [List.mem_map] at hx
+      obtain ⟨y, _, rfl⟩ := hx
+      exact docAdj_currency_exp d.c _ y
+    have hC : ∀ x ∈ d.charges.map (docAdj exactOps .currency d.c (lineSum exactOps d.c lines)), x.amount.exp = d.c := by
+      intro x hx
+      simp only [List.mem_map] at hx
+      obtain ⟨y, _, rfl⟩ := hx
+      exact docAdj_currency_exp d.c _ y
+    refine ⟨hsum, hD, hC, fun s hs => adjSum_currency d.c _ hD s hs, fun s hs => adjSum_currency d.c _ hC s hs, ?_⟩
+    have hse : (lineSum exactOps d.c lines).exp = d.c := by rw [hsum]
+    cases hds : adjSum exactOps d.c (d.discounts.map (docAdj exactOps .currency d.c (lineSum exactOps d.c lines))) with
+    | none =>
+      cases hcs : adjSum exactOps d.c (d.charges.map (docAdj exactOps .currency d.c (lineSum exactOps d.c lines))) with
+      | none =>
+        simp only [valueOr0]
+        rw [hsum]; simp
+      | some cs =>
+        have hce := adjSum_currency d.c _ hC cs hcs
+        simp only [valueOr0]
+        rw [add_same _ _ (by rw [hce, hse]), hse]
+        simp
+    | some ds =>
+      have hde := adjSum_currency d.c _ hD ds hds
+      cases hcs : adjSum exactOps d.c (d.charges.map (docAdj exactOps .currency d.c (lineSum exactOps d.c lines))) with
+      | none =>
+        simp only [valueOr0]
+        rw [sub_same _ _ (by rw [hde, hse]), hse]
+        simp
+      | some cs =>
+        have hce := adjSum_currency d.c _ hC cs hcs
+        simp only [valueOr0]
+        rw [sub_same _ _ (by rw [hde, hse]), add_same _ _ (by rw [hce]; simp [hse])]
+        simp [hse]
+
+/-- **rate_amount_from_presented_base / category sums**: under the currency rule,
+for every category built from any rows, every group's base and amount sit at
+the currency's exponent (so presentation leaves them untouched), each amount is
+its percentage of that very base rounded half away from zero to the currency,
+the category amount is the integer sum of its groups' amounts and the category
+surcharge the integer sum of their surcharges. -/
+theorem category_readds (c : ℕ) (rows : List Row) :
+    ∀ ct ∈ (baseRateTotals exactOps .currency c rows).map (catAmounts exactOps .currency c),
+      (∀ rt ∈ ct.rates, rt.base.exp = c ∧ rt.amount.exp = c) ∧
+      ct.amount = ⟨(ct.rates.map taxedValue).sum, c⟩ ∧
+      (∀ s, ct.surcharge = some s → s = ⟨(ct.rates.map surchargeValue).sum, c⟩) := by
+  intro ct hct
+  simp only [List.mem_map] at hct
+  obtain ⟨ct0, h0, rfl⟩ := hct
+  exact catAmounts_currency c ct0 (baseRateTotals_currency c rows ct0 h0)
+
+/-- a group's amount is its percentage of its (presented) base rounded to the currency -/
+theorem rate_amount_from_presented_base (c : ℕ) (rt : RateTotal) (p : Pct) (hb : rt.base.exp = c)
+    (hp : rt.percent = some p) :
+    (rateAmounts exactOps rt c).base = rt.base ∧ (rateAmounts exactOps rt c).amount.exp = c ∧
+    (rateAmounts exactOps rt c).amount.value = Spec.roundTo c (rt.base.toRat * p.amount.toRat) := by
+  have h := (rateAmounts_amount rt c).1 p hp
+  refine ⟨(rateAmounts_currency c rt hb).2.1, by rw [h.1, hb], by rw [h.2, hb]⟩
+
+/-- **tax sum**: ordinary categories (with surcharges) added, retained ones subtracted, as integers -/
+theorem tax_sum_readds (c : ℕ) (cats : List CatTotal)
+    (h : ∀ ct ∈ cats, ct.amount.exp = c ∧ ∀ s, ct.surcharge = some s → s.exp = c) :
+    finalSum exactOps .currency c cats = ⟨(cats.map catSigned).sum, c⟩ :=
+  finalSum_currency c cats h
+
+/-- **total, total_with_tax, payable, due**: once every input of the final
+assembly sits at the currency's exponent (which the theorems above establish
+for sums, rows and the tax summary; fixed advances and an external rounding
+amount are covered by the property's own guard), the assembly is plain integer
+arithmetic: total = (sum − discount + charge) − tax_included,
+total_with_tax = total + tax, payable = total_with_tax + rounding,
+due = payable − advances. -/
+theorem totals_readd (d : Doc) (p : Pre) (tx : TaxTotal)
+    (h2 : p.total2.exp = d.c) (htax : tx.precise.exp = d.c)
+    (hti : ∀ x, taxIncluded d.includes tx = some x → x.exp = d.c)
+    (hrnd : ∀ x, d.rounding = some x → x.exp = d.c)
+    (hadv : ∀ x, (rawTotals exactOps d p tx).advances = some x → x.exp = d.c) :
+    let t := rawTotals exactOps d p tx
+    t.total = ⟨p.total2.value - valueOr0 t.taxIncluded, d.c⟩ ∧
+    t.totalWithTax = ⟨t.total.value + t.tax.value, d.c⟩ ∧
+    t.payable = ⟨t.totalWithTax.value + valueOr0 t.rounding, d.c⟩ ∧
+    (∀ x, t.due = some x → x = ⟨t.payable.value - valueOr0 t.advances, d.c⟩) := by
+  have hT : (rawTotals exactOps d p tx).total = ⟨p.total2.value - valueOr0 (taxIncluded d.includes tx), d.c⟩ := by
+    simp only [rawTotals]
+    cases hti' : taxIncluded d.includes tx with
+    | none => simp [valueOr0, ← h2]
+    | some x => simp only [valueOr0]; rw [sub_same _ _ (by rw [hti x hti', h2]), h2]
+  have hTW : (rawTotals exactOps d p tx).totalWithTax =
+      ⟨(rawTotals exactOps d p tx).total.value + tx.precise.value, d.c⟩ := by
+    have : (rawTotals exactOps d p tx).totalWithTax = add exactOps (rawTotals exactOps d p tx).total tx.precise := rfl
+    rw [this, add_same _ _ (by rw [htax, hT])]
+    rw [hT]
+  have hP : (rawTotals exactOps d p tx).payable =
+      ⟨(rawTotals exactOps d p tx).totalWithTax.value + valueOr0 d.rounding, d.c⟩ := by
+    have : (rawTotals exactOps d p tx).payable =
+        (match d.rounding with | some x => add exactOps (rawTotals exactOps d p tx).totalWithTax x | none => (rawTotals exactOps d p tx).totalWithTax) := rfl
+    rw [this]
+    cases hr : d.rounding with
+    | none => simp only [valueOr0]; rw [hTW]; simp
+    | some x => simp only [valueOr0]; rw [add_same _ _ (by rw [hrnd x hr, hTW]), hTW]
+  refine ⟨hT, hTW, hP, ?_⟩
+  intro x hx
+  have hdue : (rawTotals exactOps d p tx).due =
+      (rawTotals exactOps d p tx).advances.map (fun a => sub exactOps (rawTotals exactOps d p tx).payable a) := rfl
+  rw [hdue] at hx
+  cases ha : (rawTotals exactOps d p tx).advances with
+  | none => simp [ha] at hx
+  | some a =>
+    simp only [ha, Option.map_some, Option.some.injEq] at hx
+    rw [← hx, sub_same _ _ (by rw [hadv a ha, hP]), hP]
+    simp [valueOr0]
 
 /-- non-vacuity: a concrete line (price 10.005, quantity 3, a 10% discount and a fixed 1.00 charge, EUR) -/
 example :
